@@ -192,17 +192,27 @@ FromRewrite(ro, q) ==
 
 \* (c and e are bound by quantifiers over singleton sets: TLC evaluates a bound
 \* variable once, a LET definition at every use.)
-ServedWith(S, q, c, e) ==
+\* L is a set of RewritesCore's "deviations": {} is the specification of C06;
+\* RW!Deviations admits, besides it, the behaviours that C06 records as OPEN
+\* FINDINGS of the code (known_findings/C06.jsonl: one entry of several equally
+\* specific wildcard entries answers, an exact entry of the other family does
+\* not shadow a wildcard, an exception met on a canonical name cancels the
+\* CNAME).  The model (AdGuardHome.tla) is checked with {}.  The validation of
+\* recorded histories tries {} first and only then the deviations: the
+\* composition does not judge rewrite precedence a second time, it checks that
+\* log and statistics agree with whatever the table answered.
+ServedWith(S, q, c, e, L) ==
     IF e.vals.filt
     THEN UNION {IF ro.r = "pass" THEN PipeOutcomes(S, q, c, e) ELSE {FromRewrite(ro, q)}
-                : ro \in RW!Outcomes(S.rw, q.name, q.qt)}
+                : ro \in RW!OutcomesL(S.rw, q.name, q.qt, L)}
     ELSE PipeOutcomes(S, q, c, e)
-ServedOutcomes(S, q) ==
-    UNION {ServedWith(S, q, c, e) : c \in {Who(S.reg, q.cid, q.addr)}, e \in {Eff(S, q)}}
+ServedOutcomes(S, q, L) ==
+    UNION {ServedWith(S, q, c, e, L) : c \in {Who(S.reg, q.cid, q.addr)}, e \in {Eff(S, q)}}
 
-QueryOutcomes(S, q) ==
-    UNION {IF a = "served" THEN ServedOutcomes(S, q) ELSE {Denied(a)}
+QueryOutcomesL(S, q, L) ==
+    UNION {IF a = "served" THEN ServedOutcomes(S, q, L) ELSE {Denied(a)}
            : a \in AC!Outcomes(S.acc, AReq(q))}
+QueryOutcomes(S, q) == QueryOutcomesL(S, q, {})
 
 \* ----------------------------------------------- what a query leaves behind
 \* IgnoreAnonCore decides from ITS view of the registry (a set of
@@ -249,9 +259,9 @@ R(S, out) == [S |-> S, out |-> out]
 
 ClientRes(S, r) == {R([S EXCEPT !.reg = r.reg], r.out)}
 
-Apply(S, op) ==
+ApplyL(S, op, L) ==
     CASE op.k = "query" ->
-            {R(Commit(S, op, o), o) : o \in QueryOutcomes(S, op)}
+            {R(Commit(S, op, o), o) : o \in QueryOutcomesL(S, op, L)}
       \* POST /control/clients/add | update | delete  (ClientsCore)
       [] op.k = "client_add"    -> ClientRes(S, CL!AddRes(S.reg, op.c))
       [] op.k = "client_update" -> ClientRes(S, CL!UpdateRes(S.reg, op.name, op.c))
@@ -280,6 +290,7 @@ Apply(S, op) ==
       [] op.k = "qlog_clear" -> {R([S EXCEPT !.log = <<>>], "ok")}
       \* POST /control/stats_reset
       [] op.k = "stats_reset" -> {R([S EXCEPT !.st = NoStats, !.anonst = S.q.anon], "ok")}
+Apply(S, op) == ApplyL(S, op, {})
 
 \* ------------------------------------------------- GET /control/querylog
 \* The view of the log under the CURRENT configuration, newest first.  An
@@ -305,7 +316,7 @@ Item(S, e) ==
      proto |-> e.proto,
      may   |-> IA!IgnoreMatch(S.q.ign, e.name) \/ (Known(rc) /\ rc.ignQ),
      names |-> {IF Known(rc) THEN rc.name ELSE 0, e.wname},
-     dis   |-> IF e.cid = 0 THEN AC!ExcludedSet(S.acc, AddrRec(e.addr), AC!NoId) ELSE {TRUE, FALSE}]
+     dis   |-> IF e.cid = 0 THEN {AC!Excluded(S.acc, AddrRec(e.addr), AC!NoId)} ELSE {TRUE, FALSE}]
 LogView(S) == [i \in 1..Len(S.log) |-> Item(S, S.log[Len(S.log) + 1 - i])]
 
 \* An observed item o (projection of one element of "data") is the expected
